@@ -910,6 +910,9 @@ func keysOf(m map[string]bool) []string {
 
 // replayMain re-runs one replay file natively and prints the outcome.
 func replayMain(path string) int {
+	if abs, err := filepath.Abs(path); err == nil {
+		path = abs // the replay test runs in the module directory
+	}
 	b, err := os.ReadFile(path)
 	if err != nil {
 		fmt.Fprintln(os.Stderr, err)
